@@ -136,12 +136,16 @@ def prop_C13(tier, seed, rng):
     design = [design_check("MCLPM", "MCLPMQuick.cfg" if quick else "MCLPM.cfg")]
     s1, g1 = tlc_scripts("GenLPM", "GenLPM.cfg" if quick else "GenLPMDeep.cfg", rng, 4000 if quick else 80000)
     s2 = lpm_gen.generate(1500 if quick else 30000, seed + 2)
-    fams = [Family("tlc", "lpm", "LPMTrace", s1, g1), Family("shaped", "lpm", "LPMTrace", s2)]
+    s3 = lpm_gen.generate(60 if quick else 1500, seed + 3, "deep")
+    fams = [Family("tlc", "lpm", "LPMTrace", s1, g1), Family("shaped", "lpm", "LPMTrace", s2),
+            Family("deep", "lpm", "LPMTrace", s3)]
     return design, fams, ["C13_"], dict(
         rule="scripts = (a) one per transition of the bounded LPM.tla state graph, (b) shaped histories over clustered "
              "prefixes of lengths {0,1,2,7,8,9,W-1,W} (W in 8..24) with query prefixes that are stored, ancestors, "
              "descendants or diverge at any bit, full-length lookup keys, transactions reused after commit, branching "
-             "and abandoned transactions; non-trivial = a query on a trie holding >= 2 prefixes",
+             "and abandoned transactions, (c) deep tries: combs of 30..64 nested prefixes b^i(1-b) in 40..64-bit keys "
+             "with range queries from every depth, consumed at once and element by element, before and after "
+             "deletions; non-trivial = a query on a trie holding >= 2 prefixes",
         nontrivial=_c13_nontrivial,
         assumptions=["Lookup is judged only for full-length keys and stored prefixes (the property's domain)",
                      "values are ints"])
